@@ -120,6 +120,8 @@ type state struct {
 	wfd       [MaxTasks]int32
 	stallLeft int
 	lockDepth [MaxTasks]int32
+	opLimit   [MaxTasks]int64 // task-local yield count at which the current operation is cut off
+	baseLimit int64           // same for the sequential baseline
 
 	segs  []Segment
 	nsegs int
@@ -212,6 +214,10 @@ func Yield(site uint32) {
 			if int(site) < len(st.siteBase) {
 				st.siteBase[site] = 1
 			}
+			if st.baseLimit > 0 && st.ycount >= st.baseLimit {
+				st.baseLimit = 0
+				panic(theRunaway)
+			}
 		}
 		return
 	}
@@ -219,6 +225,10 @@ func Yield(site uint32) {
 	st.gyields++
 	st.tyields[me]++
 	st.ran++
+	if st.opLimit[me] > 0 && st.tyields[me] >= st.opLimit[me] {
+		st.opLimit[me] = 0
+		panic(theRunaway)
+	}
 	if int(site) < len(st.siteMask) {
 		m := st.siteMask[site]
 		if m == 0 {
@@ -281,6 +291,39 @@ func deliverFaults(me int32, site uint32) {
 			theAbort.Task = me
 			panic(theAbort)
 		}
+	}
+}
+
+// RunawaySentinel is the panic value that cuts off an operation which exceeded
+// its yield budget (an endless loop in the library would otherwise hang the
+// simulator; the cut-off is by yield count, hence deterministic).
+type RunawaySentinel struct{}
+
+var theRunaway = &RunawaySentinel{}
+
+// IsRunaway reports whether a recovered panic value is the yield-budget cut-off.
+func IsRunaway(v interface{}) bool {
+	_, ok := v.(*RunawaySentinel)
+	return ok
+}
+
+// ArmLimit sets the yield budget of the operation that is about to run
+// (0 disarms).
+//
+//go:norace
+func ArmLimit(n int64) {
+	if st.active {
+		if n <= 0 {
+			st.opLimit[st.cur] = 0
+		} else {
+			st.opLimit[st.cur] = st.tyields[st.cur] + n
+		}
+		return
+	}
+	if n <= 0 {
+		st.baseLimit = 0
+	} else {
+		st.baseLimit = st.ycount + n
 	}
 }
 
@@ -559,6 +602,7 @@ func begin(cfg *Config, n int) error {
 		st.preempted[i] = false
 		st.tyields[i] = 0
 		st.lockDepth[i] = 0
+		st.opLimit[i] = 0
 	}
 	for i := 0; i < n; i++ {
 		var p [2]int
